@@ -3093,3 +3093,15 @@ mod tests {
         }
     }
 }
+
+// ========================================================================
+// Verification hooks (read-only accessors to private items); compiled only
+// with --cfg pornin_crrl_verif.
+
+#[cfg(pornin_crrl_verif)]
+impl Point {
+    pub fn verif_recode_scalar(n: &Scalar) -> [i8; 90] { Self::recode_scalar(n) }
+    pub fn verif_recode_scalar_NAF(n: &Scalar) -> [i8; 447] { Self::recode_scalar_NAF(n) }
+    pub fn verif_recode_halfwidth_NAF(n: &[u8; 28]) -> [i8; 225] { Self::recode_halfwidth_NAF(n) }
+    pub fn verif_lookup(win: &[Self; 16], k: i8) -> Self { Self::lookup(win, k) }
+}
